@@ -48,6 +48,8 @@ def _install_asyncio_watch():
                                       "current_task", "all_tasks", "timeout", "timeout_at", "get_event_loop_policy")]
     targets += [(ev, n) for n in ("get_running_loop", "get_event_loop", "_get_running_loop", "new_event_loop")]
     targets += [(tasks, n) for n in ("ensure_future", "create_task", "sleep", "shield", "wait_for", "gather", "current_task", "all_tasks")]
+    # the hooks an event loop installs for asynchronous generators: asking for them is asking for the loop, without naming one
+    targets += [(sys, n) for n in ("get_asyncgen_hooks", "set_asyncgen_hooks")]
     for mod, name in targets:
         orig = getattr(mod, name, None)
         if orig is None or getattr(orig, "_verif_watch", False):
@@ -505,6 +507,19 @@ def execute(case, L, *, sync=False, flav=None, susp=0, fault_kind="exc", cancel_
                     if p > len(keys) and par.get("sent") == "ident":
                         return rec.sentinel        # the sentinel object itself
                     return (StrictItem if rec.matcher else Item)(1, p, keys[p - 1] if p <= len(keys) else SENTINEL_KEY)
+
+            if name == "pred" and tool == "dropwhile":
+                # the predicate of dropwhile has done its work once it has said no: whoever asks it again gets an error
+                # (the counterpart never asks again)
+                from .instruments import _semantics as _sem_of  # noqa: PLC0415
+                base, done = _sem_of(rec, "pred"), {"no": False}
+
+                def sem(x):
+                    if done["no"]:
+                        raise AssertionError("predicate of dropwhile asked again after it had said no")
+                    r_ = base(x)
+                    done["no"] = not r_
+                    return r_
 
             made[name] = make_callable(call_flav, rec, name, sem)
         return made[name]
